@@ -73,6 +73,8 @@ def ob_constants(run, oid):
 
 
 def ob_is_met(run, oid):
+    from . import slots as _SL
+    _SL.ob_value_types(run, oid + "v")
     prog = run.program("lib")
     o = run.ob(oid, "Fraction::is_met is the exact comparison value*den >= total*num carried out in u128",
                "'>' instead of '>=' or 64-bit/float arithmetic changes which stake sets count as a quorum exactly at the boundary", floor=3)
